@@ -18,7 +18,8 @@ LEVEL_TEXT = ("static: decides only the finite part of RFC agreement: header fla
               "a frozen IANA table; every key a record type declares is set on every success path of its parser; key <-> datatype <-> wire primitive "
               "agreement; the escaping of a label byte is '\\\\DDD' with exactly three decimal digits for all 256 values and the un-escaper reads the same "
               "number of digits; the name parser rejects only on wire-derived conditions (no implementation-chosen iteration limits). Does NOT decide "
-              "agreement with a reference decoder on all inputs.")
+              "agreement with a reference decoder on all inputs."
+              " Also decides (LIMIT) that the parse path fails on magnitudes only at frozen protocol limits, (PURE) that numeric wire fields reach the record unmodified, (ZEROLEN) that zero-length fields the RFC allows are not turned into errors.")
 LEVEL_NOTE = "trusts clang CFG + extractor and the frozen table tables/iana.json (written from the RFCs); differential agreement on all messages needs execution"
 DESIGN_REF = "DESIGN.md §6/C04"
 EXPLANATION = LEVEL_TEXT
